@@ -419,7 +419,7 @@ func (f *Frame) copyModel(instr ssa.Instruction, c *ssa.CallCommon, args []Value
 	q := e.qvar()
 	qi := sym(q, SBV64)
 	rel := bvSub(qi, sOff(dst))
-	body := eq(sel(nr, qi), ite(and(sle(sOff(dst), qi), slt(qi, bvAdd(sOff(dst), n))), srcAt(rel), sel(drow, qi)))
+	body := eq(sel(nr, qi), ite(ult(rel, n), srcAt(rel), sel(drow, qi)))
 	e.assume(Term{S: fmt.Sprintf("(forall ((%s (_ BitVec 64))) (! %s :pattern ((select %s %s))))", q, body.S, nr.S, q), Sort: SBool})
 	e.setHeap(f.st, hn, store(h, sReg(dst), nr))
 	return n
@@ -476,8 +476,8 @@ func (f *Frame) appendModel(instr ssa.Instruction, c *ssa.CallCommon, args []Val
 	nr := e.havoc(name+"_row", arraySort(SBV64, el))
 	q := e.qvar()
 	qi := sym(q, SBV64)
-	freshVal := ite(and(sle(i64(0), qi), slt(qi, sLen(s))), sel(oldRow, bvAdd(sOff(s), qi)), zero)
-	body := eq(sel(nr, qi), ite(and(sle(start, qi), slt(qi, bvAdd(start, addLen))), addAt(bvSub(qi, start)), ite(inPlace, sel(oldRow, qi), freshVal)))
+	freshVal := ite(ult(qi, sLen(s)), sel(oldRow, bvAdd(sOff(s), qi)), zero)
+	body := eq(sel(nr, qi), ite(ult(bvSub(qi, start), addLen), addAt(bvSub(qi, start)), ite(inPlace, sel(oldRow, qi), freshVal)))
 	e.assume(Term{S: fmt.Sprintf("(forall ((%s (_ BitVec 64))) (! %s :pattern ((select %s %s))))", q, body.S, nr.S, q), Sort: SBool})
 	if addLen.isC && addLen.c <= smallN {
 		// explicit facts for the appended elements (useful to the quantifier-free slice)
@@ -516,7 +516,7 @@ func (f *Frame) bufAppend(b Term, n Term, at func(i Term) Term) {
 		nr = e.havoc(f.name("brow"), arraySort(SBV64, SBV8))
 		q := e.qvar()
 		qi := sym(q, SBV64)
-		body := eq(sel(nr, qi), ite(and(sle(old, qi), slt(qi, bvAdd(old, n))), at(bvSub(qi, old)), sel(row, qi)))
+		body := eq(sel(nr, qi), ite(ult(bvSub(qi, old), n), at(bvSub(qi, old)), sel(row, qi)))
 		e.assume(Term{S: fmt.Sprintf("(forall ((%s (_ BitVec 64))) (! %s :pattern ((select %s %s))))", q, body.S, nr.S, q), Sort: SBool})
 	}
 	e.setHeap(f.st, "HB_data", store(data, b, nr))
